@@ -537,7 +537,7 @@ def main(tier: str, seed: int, replay: str | None = None) -> int:
             kind = case["kind"]
             obs = []
             for name, r in runs:
-                for ps in ("first", "again", "rebuilt"):
+                for ps in ("first", "again", "tau0", "tau1", "rebuilt"):
                     obs.append((f"{name} pass={ps}", r[ps][ci]))
             for (ao, so), x in sched_obs.get((li, ci), []):
                 obs.append((f"this-process tool_outputs order={ao} sources order={so}", x))
